@@ -27,6 +27,29 @@ var blBoundaries = []int{0, 1, 7, 8, 9, 31, 32, 33, 63, 64, 65, 4064, 4095, 4096
 
 // patBit is the i-th bit of the deterministic pattern selected by seed (no RNG at run time).
 func patBit(seed int64, i int) bool {
+	if seed >= 1<<21 { // structured patterns (kind in the bits above 21, parameter below)
+		kind, param := int(seed>>21), int(seed&(1<<21-1))
+		switch kind {
+		case 1:
+			return false // all zero
+		case 2:
+			return i < param%96 // ones, then zeros to the end
+		case 3:
+			return i == param%200 // a single one
+		case 4, 5: // whole 32-bit groups are zero (kind 4: the others random, kind 5: the others all ones)
+			w := uint64(param)*0x9E3779B97F4A7C15 + uint64(i/32)*0xD6E8FEB86659FD93
+			w ^= w >> 32
+			if w%3 != 0 {
+				return false
+			}
+			if kind == 5 {
+				return true
+			}
+			return patBit(int64(param&^3), i)
+		default:
+			return i >= param%96 // zeros, then ones
+		}
+	}
 	x := uint64(seed)*0x9E3779B97F4A7C15 + uint64(i)*0xBF58476D1CE4E5B9
 	x ^= x >> 31
 	x *= 0x94D049BB133111EB
@@ -87,7 +110,15 @@ func genBLCase(t *rapid.T) BLCase {
 		default:
 			// large variadic append: crosses the 128-word and 1024-word growth steps
 			n := rapid.SampledFrom([]int{100, 1000, 4000, 4096, 4200, 9000, 33000, 40000}).Draw(t, "bign")
-			return BLOp{Op: "bulk", V: int64(rapid.IntRange(0, 1<<20).Draw(t, "pat")), N: n}
+			pat := int64(rapid.IntRange(0, 1<<20).Draw(t, "pat"))
+			if rapid.Bool().Draw(t, "structured") {
+				// zero runs / zero words / whole multiples of the word size (bulk code paths that treat zero words specially)
+				pat = int64(rapid.IntRange(1, 6).Draw(t, "patkind"))<<21 | int64(rapid.IntRange(0, 1<<21-1).Draw(t, "patparam"))
+				if rapid.Bool().Draw(t, "wordmultiple") {
+					n = 32*rapid.IntRange(1, 140).Draw(t, "nwords") + rapid.SampledFrom([]int{0, 0, 0, 1, 31}).Draw(t, "tail")
+				}
+			}
+			return BLOp{Op: "bulk", V: pat, N: n}
 		}
 	})
 	c.Ops = rapid.SliceOfN(opGen, 0, 25).Draw(t, "ops")
@@ -375,8 +406,34 @@ func TestC18Exhaustive(t *testing.T) {
 			})
 		}
 	}
+	// one variadic append of 32/64/96/128/4096(+1) bits in every structured pattern from every boundary start
+	// length, followed by a single bit, a set and the byte views
+	var sweep []BLCase
+	for _, start := range append([]int{-1}, blBoundaries...) {
+		for _, n := range []int{32, 64, 65, 96, 128, 4096, 4097} {
+			for kind := int64(0); kind <= 6; kind++ {
+				pat := kind<<21 | 40
+				if kind == 0 {
+					pat = 1 // all ones
+				}
+				sweep = append(sweep, BLCase{New: start, Ops: []BLOp{{Op: "bulk", V: pat, N: n}, {Op: "get", V: int64(n - 1)}}},
+					BLCase{New: start, Ops: []BLOp{{Op: "bulk", V: pat, N: n}, {Op: "set", V: 0, Bit: true}, {Op: "addbit", Bit: true}, {Op: "iter"}}})
+			}
+		}
+	}
+	parallelFor(len(sweep), 16, func(i int) {
+		if ct.Failed() {
+			return
+		}
+		ct.guard(func() {
+			words, crossed, setAfter := checkBitList(ct, sweep[i])
+			st.Eval()
+			c18Account(st, sweep[i], words, crossed, setAfter)
+			st.Class("variadic append sweep")
+		})
+	})
 	st.Set("exhaustive", true)
-	st.Set("exhaustive_domain", fmt.Sprintf("all sequences of length 0..%d over %d ops from %d start states", depth, len(alphabet), len(starts)))
+	st.Set("exhaustive_domain", fmt.Sprintf("all sequences of length 0..%d over %d ops from %d start states; plus one variadic append of 32..4097 bits x 7 patterns x %d start lengths", depth, len(alphabet), len(starts), len(blBoundaries)+1))
 	if ct.Failed() {
 		t.Fatalf("%s", ct.first)
 	}
